@@ -782,3 +782,37 @@ func festivalTables(c *Ctx, r *Report, rule string) {
 	_ = sort.Strings
 	_ = token.NoPos
 }
+
+// R08.8: the two ephemeris entry points read their own correction tables.
+func r08_8(c *Ctx, r *Report) {
+	const rule = "R08.8"
+	r.rule(rule, "Sibling ephemeris routines keep to their own tables. CalcShuo (new moons) reads the breakpoint table SHUO_KB and the correction string SB and neither QI_KB nor QB; CalcQi (solar terms) reads QI_KB and QB and neither SHUO_KB nor SB (transitively, through helpers, by the table each call hands them). The two correction strings have the same alphabet, so a swapped table type-checks, stays in range and shifts terms or lunations by a day in the centuries the strings serve.")
+	for _, t := range []struct {
+		fn         string
+		own, other []string
+	}{
+		{"ShouXingUtil.CalcShuo", []string{"ShouXingUtil.SHUO_KB", "ShouXingUtil.SB"}, []string{"ShouXingUtil.QI_KB", "ShouXingUtil.QB"}},
+		{"ShouXingUtil.CalcQi", []string{"ShouXingUtil.QI_KB", "ShouXingUtil.QB"}, []string{"ShouXingUtil.SHUO_KB", "ShouXingUtil.SB"}},
+	} {
+		fn := c.Fn(r, rule, t.fn)
+		if fn == nil {
+			continue
+		}
+		read := map[string]bool{}
+		for _, g := range c.eff.Of(fn).globalsRead() {
+			read[g] = true
+		}
+		var missing, foreign []string
+		for _, g := range t.own {
+			if !read[g] {
+				missing = append(missing, g)
+			}
+		}
+		for _, g := range t.other {
+			if read[g] {
+				foreign = append(foreign, g)
+			}
+		}
+		r.check(len(missing) == 0 && len(foreign) == 0, rule, t.fn+" reads its own breakpoint and correction tables only", c.fnPos(fn), fmt.Sprintf("own tables not read: %v; the sibling's tables read: %v", missing, foreign))
+	}
+}
